@@ -39,3 +39,51 @@ Print Assumptions C03_framing_11.
 Print Assumptions C03_stream_11.
 Print Assumptions C03_framing_10.
 Print Assumptions C03_rpc_writes.
+
+(* ---- content of the requests (NcSessionLemmas): the operation, the caller's datastore names,
+   filter, defaults mode and configuration payload, unaltered ---- *)
+From Scrapli Require Import Channel NcSession NcSessionLemmas.
+
+Theorem C03_rpc_wrapper : forall id p, exists attrs, rpc_xml id p = elem (bs "rpc") attrs p /\
+  attrs = attr (bs "xmlns") ncd_base_namespace ++ attr (bs "message-id") (print_dec id).
+Proof. exact rpc_wrapper. Qed.
+
+Theorem C03_edit_config : forall t c p, op_payload (OEditConfig t c) = BOk p ->
+  p = elem (bs "edit-config") [] (datastore (bs "target") t ++ c).
+Proof. exact edit_config_content. Qed.
+
+Theorem C03_get_config : forall s f ft dt p, op_payload (OGetConfig s f ft dt) = BOk p ->
+  exists fe de,
+    p = elem (bs "get-config") [] (datastore (bs "source") s ++ fe ++ de) /\
+    (f <> [] -> ft = ncd_filter_subtree -> fe = elem (bs "filter") (attr (bs "type") ft) f) /\
+    (dt <> [] -> de = elem (bs "with-defaults") (attr (bs "xmlns") ncd_default_namespace) dt /\
+                 existsb (beqb dt) ncd_defaults_types = true) /\
+    (dt = [] -> de = []).
+Proof. exact get_config_content. Qed.
+
+Theorem C03_raw : forall p, op_payload (ORaw p) = BOk p.
+Proof. exact raw_content. Qed.
+
+(* omitting the XML declaration changes only the declaration; without forcing self-closing tags
+   the message is exactly declaration ++ rpc element *)
+Theorem C03_header_option_local : forall v id p,
+  ser_raw (serialize v false false id p) = ncd_xml_header ++ ser_raw (serialize v false true id p).
+Proof. exact header_option_local. Qed.
+
+Theorem C03_force_option_off : forall v xh id p,
+  ser_raw (serialize v false xh id p) = (if xh then [] else ncd_xml_header) ++ rpc_xml id p.
+Proof. exact force_option_off. Qed.
+
+(* what is written for a whole session decodes strictly, request by request *)
+Theorem C03_wire_11_decodes : forall f xh id p, let s := serialize V11 f xh id p in
+  ser_raw s <> [] -> N.of_nat (length (ser_raw s)) <= max_chunk ->
+  forall rest, strict_decode11 ([10] ++ ser_framed s ++ [10] ++ rest) = Some (ser_raw s, rest).
+Proof. exact wire_11_decodes. Qed.
+
+Print Assumptions C03_rpc_wrapper.
+Print Assumptions C03_edit_config.
+Print Assumptions C03_get_config.
+Print Assumptions C03_raw.
+Print Assumptions C03_header_option_local.
+Print Assumptions C03_force_option_off.
+Print Assumptions C03_wire_11_decodes.
